@@ -129,6 +129,10 @@ define_language! {
         Ch(char) = "ch",
         Big(i64) = "big",
         Tag(Symbol, Slot) = "tag",
+        // several payload fields in one node, next to slots and children (the only bare leaf of this language is numeric)
+        Proj(Symbol, u32, AppliedId) = "proj",
+        Flag2(bool, u32) = "flag2",
+        Pidx(u32, Slot, AppliedId) = "pidx",
         K() = "kk",
         N(u32),
     }
@@ -147,6 +151,9 @@ pub static LNEST: LangSig = LangSig {
         OpSig { name: "ch", fields: &[Fld::P] },
         OpSig { name: "big", fields: &[Fld::P] },
         OpSig { name: "tag", fields: &[Fld::P, Fld::S] },
+        OpSig { name: "proj", fields: &[Fld::P, Fld::P, Fld::C(0)] },
+        OpSig { name: "flag2", fields: &[Fld::P, Fld::P] },
+        OpSig { name: "pidx", fields: &[Fld::P, Fld::S, Fld::C(0)] },
         OpSig { name: "kk", fields: &[] },
         OpSig { name: "#num", fields: &[Fld::P] },
     ],
